@@ -21,7 +21,7 @@
 -/
 import GraphiqModel.Proofs.Wire
 import GraphiqModel.Proofs.CommuteTableau
-import GraphiqModel.Proofs.CommuteRecord
+import GraphiqModel.Proofs.CommuteRecordRw
 import GraphiqModel.Proofs.CommuteHilbert
 namespace Graphiq.C13
 open Graphiq Graphiq.Wire
@@ -400,6 +400,51 @@ theorem compiled_record_independent_of_topological_order (c : Circuit) (hgood : 
   · show (TabSpec.gstate s1.t).G P ↔ (TabSpec.gstate s2.t).G P
     rw [e3.1]
   · rw [Commute.finalRecord_eq, Commute.finalRecord_eq, e3.2]
+
+/-- **the rewrites preserve stabilizer state and classical record**: for a sane circuit whose measuring operations lie on the
+    classical wire they write, every rewrite keeps the operations on every classical wire (`Commute.Rewrites.cflat`), so the
+    rewritten circuit, along any of its topological orders, gives the same state of the semantics with record -/
+theorem rewrite_preserves_state_and_record_stab (ne np : Nat) (c c' : Circuit) (hgood : c.Good) (hthr : Commute.CThreaded c)
+    (hca : Commute.CArity c) (h : Rewrites c c') (seq seq' : List Nat) (hl : c.isLinearExtension seq = true)
+    (hl' : c'.isLinearExtension seq' = true) (s : Commute.CSt ne np) :
+    runSeq (Commute.appC ne np) (c'.sops seq') s = runSeq (Commute.appC ne np) (c.sops seq) s :=
+  same_wires_same_state Commute.regsC (Commute.appC ne np) (Commute.appC_comm ne np) (c'.sops seq') (c.sops seq)
+    (Commute.regsC_ne_nil c' (h.good hgood) seq') (Commute.regsC_ne_nil c hgood seq)
+    (Commute.rewrites_proj_regsC_eq c c' hgood hthr hca h seq seq' hl hl') s
+
+/-- **the classical registers the stabilizer backend ends with are preserved by the rewrites**: original and rewritten
+    circuit, any topological orders, any measurement settings, every measuring operation recording the same outcome in both
+    runs ⇒ same signed stabilizer group and the same final register values -/
+theorem rewrite_preserves_compiled_record (c c' : Circuit) (hgood : c.Good) (har : Commute.ArityOk c)
+    (hthr : Commute.CThreaded c) (hca : Commute.CArity c) (h : Rewrites c c')
+    (seq seq' : List Nat) (hl : c.isLinearExtension seq = true) (hl' : c'.isLinearExtension seq' = true)
+    (d d' : Det) (script script' : List Bool) (s s' : RunState)
+    (h1 : stabRun c.ne c.np d script ((c.sops seq).map Commute.toCOp) = some s)
+    (h2 : stabRun c'.ne c'.np d' script' ((c'.sops seq').map Commute.toCOp) = some s')
+    (hout : Commute.feed c.ne c.np (c.sops seq) s.outs (fun _ => []) =
+      Commute.feed c'.ne c'.np (c'.sops seq') s'.outs (fun _ => [])) :
+    (∀ P, TabSpec.Grp s.t P ↔ TabSpec.Grp s'.t P) ∧ finalRecord c.nc s.writes = finalRecord c'.nc s'.writes := by
+  have hflat := h.flat_eq hgood
+  have hne : c'.ne = c.ne := by simp only [Circuit.flat, Prod.mk.injEq] at hflat; exact hflat.1
+  have hnp : c'.np = c.np := by simp only [Circuit.flat, Prod.mk.injEq] at hflat; exact hflat.2.1
+  have hnc : c'.nc = c.nc := flat_nc hflat
+  have r1 := Commute.stabRun_refines_record c hgood har seq d script s h1 (fun _ => [])
+  have r2 := Commute.stabRun_refines_record c' (h.good hgood) (Commute.Rewrites.arityOk hgood har h) seq' d' script' s' h2
+    (fun _ => [])
+  rw [hne, hnp] at r2
+  rw [hne, hnp] at hout
+  have e := rewrite_preserves_state_and_record_stab c.ne c.np c c' hgood hthr hca h seq seq' hl hl'
+    (Commute.CSt.init c.ne c.np (Commute.feed c.ne c.np (c.sops seq) s.outs (fun _ => [])))
+  have e' := congrArg Subtype.val e
+  have e'' := (Commute.runSeq_appC_val _ _ _ _).symm.trans (e'.trans (Commute.runSeq_appC_val _ _ _ _))
+  have e3 : some (TabSpec.gstate s'.t, (fun _ => [] : Commute.Script), Commute.recOf s'.writes) =
+      some (TabSpec.gstate s.t, (fun _ => [] : Commute.Script), Commute.recOf s.writes) := by
+    rw [← r1, ← r2, ← hout]; exact e''
+  simp only [Option.some.injEq, Prod.mk.injEq, true_and] at e3
+  refine ⟨fun P => ?_, ?_⟩
+  · show (TabSpec.gstate s.t).G P ↔ (TabSpec.gstate s'.t).G P
+    rw [e3.1]
+  · rw [Commute.finalRecord_eq, Commute.finalRecord_eq, e3.2, hnc]
 
 /-! ## 2f. read as quantum states
 
